@@ -225,11 +225,11 @@ def _voxel_cases(draw, tier):
     flat = draw(st.sampled_from([None, None, None, 0, 1, 2]))
     if flat is not None and d["kind"] == "surface":
         # a planar, axis-aligned surface: all control points share one coordinate (zero extent of the bounding box there)
-        c0 = d["P"][0][flat]
+        c0 = d["P"][0][flat] if draw(st.booleans()) else 0.0          # ... half of the time the coordinate plane itself
         d["P"] = [[c0 if i == flat else c for i, c in enumerate(q)] for q in d["P"]]
         d["flat_axis"] = flat
     return {"defn": d, "grid": [draw(st.integers(2, 8 if tier == "thorough" else 5)) for _ in range(3)], "cubes": draw(st.booleans()),
-            "n": draw(st.integers(2, 5)), "procs": draw(st.sampled_from([1, 1, 1, 2, 3]))}
+            "n": draw(st.integers(2, 5)), "procs": draw(st.sampled_from([1, 1, 1, 2, 3])), "pair": draw(st.integers(0, 3)) == 0}
 
 
 def check_voxels(case, ctx):
@@ -274,6 +274,22 @@ def check_voxels(case, ctx):
                   "voxel grid spans [%r, %r] on axis %d, bounding box [%r, %r]" % (min(v[0][i] for v in grid), max(v[1][i] for v in grid), i, bb[0][i], bb[1][i]))
     for p in pts:
         ctx.check(any(all(v[0][i] - 1e-7 <= p[i] <= v[1][i] + 1e-7 for i in range(3)) for v in grid), "sampled-point-outside-grid", "sampled point %r lies in no voxel" % (p,))
+    if case.get("pair") and not flat_axes:
+        # a container of the shape and an overlapping, shifted copy: every member gets its own grid, filled from its own points
+        from geomdl import multi, operations
+        shift = [(bb[1][i] - bb[0][i]) * 0.25 for i in range(3)]
+        obj2 = operations.translate(obj, shift)
+        obj2.delta = 1.0 / case["n"]
+        cont = (multi.SurfaceContainer if obj.pdimension == 2 else multi.VolumeContainer)(obj, obj2)
+        cgrid, cfilled = voxelize.voxelize(cont, grid_size=tuple(case["grid"]), use_cubes=case["cubes"], **kw)
+        ctx.label("container-of-two")
+        ctx.check(len(cgrid) == len(cfilled) and len(cgrid) == 2 * len(grid), "voxel-counts", "container of two: %d voxels, %d flags; one member alone has %d voxels" % (len(cgrid), len(cfilled), len(grid)))
+        half = len(grid)
+        ctx.check([list(map(list, v)) for v in cgrid[:half]] == [list(map(list, v)) for v in grid] and list(cfilled[:half]) == list(filled), "container-member-voxels",
+                  "the first member's part of the container result differs from voxelising that member alone (%d vs %d filled)" % (sum(cfilled[:half]), sum(filled)))
+        g2, f2 = voxelize.voxelize(obj2, grid_size=tuple(case["grid"]), use_cubes=case["cubes"], **kw)
+        ctx.check([list(map(list, v)) for v in cgrid[half:]] == [list(map(list, v)) for v in g2] and list(cfilled[half:]) == list(f2), "container-member-voxels",
+                  "the second member's part of the container result differs from voxelising that member alone (%d vs %d filled)" % (sum(cfilled[half:]), sum(f2)))
     if case["n"] % 2 == 0:
         # the same object voxelised again after its control points moved: the grid follows the new bounding box
         obj.ctrlpts = [[c * 1.5 + 3.0 for c in q] for q in d["P"]]
